@@ -47,7 +47,10 @@ type Event struct {
 
 // Scenario closes the system: configuration, initial world, skeleton and alphabet.
 type Scenario struct {
-	Name      string
+	Name string
+	// CovName, when set, replaces Name as the prefix of the coverage counters in the evidence (families
+	// of thousands of tiny scenarios share one set of counters).
+	CovName   string
 	Groups    []GroupSpec
 	DryGlobal bool
 	Init      func(h *Hist)
@@ -55,9 +58,9 @@ type Scenario struct {
 	Quantum   time.Duration
 	// Events returns the deviation menu at the head of a slot; it must be a deterministic
 	// function of the history so far.
-	Events           func(h *Hist, slot int) []Event
+	Events func(h *Hist, slot int) []Event
 	// Script runs unconditionally at the head of every slot (scripted, non-chosen environment steps).
-	Script func(h *Hist, slot int)
+	Script           func(h *Hist, slot int)
 	MaxEventsPerSlot int
 	// FaultOps lists the operations whose calls are ok/fail choice points inside a scan.
 	FaultOps map[string]bool
@@ -109,9 +112,9 @@ type Hist struct {
 	// PostSync runs after the informer view was synced and before the scan (per slot): changes made
 	// there are in the API store but not yet in the view.
 	PostSync []func(h *Hist)
-	PermPods   int
+	PermPods int
 
-	Lifetimes int // controller lifetimes started
+	Lifetimes int  // controller lifetimes started
 	Abort     bool // stop executing further slots (set by twin monitors)
 	// DivergedMsg is set when a lenient (twin) execution met a menu its forced choices did not fit.
 	DivergedMsg string
@@ -529,11 +532,11 @@ func taintSummary(n *v1.Node) string {
 
 // ScanSummary is the per-group list of writes of one scan in a canonical, comparable form.
 type ScanSummary struct {
-	Scan     int
-	ByGroup  map[string][]string
-	Fatal    bool
-	Removed  map[string][]string // per group: nodes terminated or deleted (successful calls)
-	NonRem   map[string][]string // per group: every other write
+	Scan    int
+	ByGroup map[string][]string
+	Fatal   bool
+	Removed map[string][]string // per group: nodes terminated or deleted (successful calls)
+	NonRem  map[string][]string // per group: every other write
 	// Protected: view nodes with a non-empty no-delete annotation and no force-removal taint.
 	Protected map[string]bool
 }
